@@ -1768,3 +1768,85 @@ func constWidth(info *types.Info, file *ast.File, sl *ast.SliceExpr) (int64, boo
 	}
 	return w, true
 }
+
+// ---- CRASH-8: the "cannot happen" belief of Context.CreateMode holds at every call site ----
+//
+// CreateMode panics when the mode already exists and relies on its callers: a mode name reaches it
+// only after RegisterName accepted it (the single name table rejects a second declaration with a
+// diagnostic). Each call site must therefore either pass a constant that no other site passes, or
+// sit on a path where RegisterName(<the same name>, …) returned true.
+func ruleCRASH8(c *Ctx) {
+	const rule = "CRASH-8"
+	p := c.Prog
+	pk, cm := p.FuncDecl("internal/ast", "Context.CreateMode")
+	if cm == nil {
+		c.unres(rule, "ast.Context.CreateMode", "", "function not found")
+		return
+	}
+	info := pk.TypesInfo
+	// the belief: a panic under "the name is already in the mode table"
+	hasBelief := false
+	cmPar := parents(cm)
+	ast.Inspect(cm.Body, func(n ast.Node) bool {
+		call, ok := n.(*ast.CallExpr)
+		if !ok || !isPanicCall(info, call) {
+			return true
+		}
+		for _, f := range pathConds(info, cmPar, call) {
+			if o := usesObj(info, f.e); o != nil && !f.neg && commaOK(info, cm)[o] == "index" {
+				hasBelief = true
+			}
+			if l, op, r, ok := cmpFact(f.e, !f.neg); ok && op == token.NEQ && (exprString(l) == "nil" || exprString(r) == "nil") {
+				hasBelief = true
+			}
+		}
+		return true
+	})
+	if !hasBelief {
+		c.ok(rule, "ast.Context.CreateMode/no-panic", p.Pos(cm.Pos()), "CreateMode does not panic on an existing mode: nothing to discharge at its call sites")
+		return
+	}
+	cmObj, _ := info.Defs[cm.Name].(*types.Func)
+	constSites := map[string]int{}
+	nSites := 0
+	for _, f := range pk.Syntax {
+		if isTestFile(p.Fset, f) {
+			continue
+		}
+		for _, d := range f.Decls {
+			fd, ok := d.(*ast.FuncDecl)
+			if !ok || fd.Body == nil {
+				continue
+			}
+			par := parents(fd)
+			ast.Inspect(fd.Body, func(n ast.Node) bool {
+				call, ok := n.(*ast.CallExpr)
+				if !ok || calleeFunc(info, call) != cmObj || len(call.Args) != 1 {
+					return true
+				}
+				nSites++
+				construct := funcKey(pk, fd) + "/CreateMode(" + truncate(exprString(call.Args[0]), 30) + ")"
+				if s, isConst := constString(info, call.Args[0]); isConst {
+					constSites[s]++
+					c.check(constSites[s] == 1, rule, construct, p.Pos(call.Pos()), "the built-in mode name is created at this one site", "the same constant mode name is created at two sites: the second panics")
+					return true
+				}
+				registered := holds(pathConds(info, par, call), func(e ast.Expr, pos bool) bool {
+					rc, ok := ast.Unparen(e).(*ast.CallExpr)
+					if !ok || !pos || len(rc.Args) < 1 {
+						return false
+					}
+					fn := calleeFunc(info, rc)
+					return fn != nil && fn.Name() == "RegisterName" && sameExpr(rc.Args[0], call.Args[0])
+				})
+				c.check(registered, rule, construct, p.Pos(call.Pos()),
+					"reached only after RegisterName accepted the same name: a second declaration was rejected with a diagnostic before",
+					"CreateMode is reached before RegisterName accepted the name: declaring the mode twice panics (`mode redefined`) instead of printing `… redefined`")
+				return true
+			})
+		}
+	}
+	if nSites == 0 {
+		c.unres(rule, "ast.Context.CreateMode/call-sites", "", "no call site found")
+	}
+}
